@@ -1,5 +1,6 @@
 import Proofs.OSet
 import Proofs.OSetPtr
+import Proofs.OSetShape
 
 /-!
   C17 — Ordered sets behave as insertion-ordered mathematical sets.
@@ -186,5 +187,39 @@ example : Pyx.OSetPtr.NextChain ring2 (ring2.next 0) [1, 2] ∧ Pyx.OSetPtr.Prev
 example : Pyx.OSetPtr.absRunP [.add 9, .add 8, .add 9, .discard 9, .add 7, .discard 5] = [8, 7] := by decide
 example : Pyx.OSetPtr.toList (Pyx.OSetPtr.runP [.add 9, .add 8, .add 9, .discard 9, .add 7, .discard 5]) = [8, 7] :=
   (ptr_reachable _).2.1
+
+end PyxProps.C17
+
+/-! ==========================================================================================================
+  SOURCE TIE at the pointer level  (section owned by the OSetShape extension)
+
+  translator/gen_osetshape.py reads `class OrderedSet` (xtuml/tools.py) with `ast` on every run: `add` and `discard`
+  become statement lists over the `[key, prev, next]` cells, `__iter__` / `__reversed__` the start and step fields of
+  their walk; `__init__`, `pop`, `__len__`, `__contains__`, `__repr__`, `__eq__` and the SET of methods the class
+  defines are compared exactly (so every set-algebra operator still comes from collections.abc.MutableSet, whose
+  mixins the list-level model composes).  Anything else raises (broken tie).  Proofs/OSetShape.lean defines ONE
+  generic interpreter of the cell IR; the theorem states that the pointer-level model IS that interpretation of the
+  IR generated from the current source — including the iteration that discards the visited element.
+  ========================================================================================================== -/
+namespace PyxProps.C17
+open Pyx.OSetPtr Pyx.OShape Pyx.Gen.OSetShape
+
+theorem ordered_set_cells_as_in_source (k : Nat) (s : Store) (p : Nat → Bool) (f curr : Nat) :
+    Pyx.OSetPtr.add k s = iGuarded addProg k s ∧
+    Pyx.OSetPtr.discard k s = iGuarded discardProg k s ∧
+    toList s = iToList iterShape s ∧ toListRev s = iToList reversedShape s ∧
+    iterRem p f s curr = iIterRem iterShape discardProg p f s curr :=
+  ⟨add_eq k s, discard_eq k s, (toList_eq s).1, (toList_eq s).2, iterRem_eq p f s curr⟩
+
+/-! non-vacuity: the interpreter builds, edits and walks the ring from the generated statements, and iterates while
+    the visited element is discarded; a discard program without its last statement (the `next_[1] = prev` write) is a
+    different function: reverse iteration would still reach the removed cell -/
+example : iToList iterShape (iGuarded discardProg 9 (iGuarded addProg 7 (iGuarded addProg 8 (iGuarded addProg 9 Pyx.OSetPtr.empty)))) = [8, 7] ∧
+    iToList reversedShape (iGuarded addProg 7 (iGuarded addProg 8 (iGuarded addProg 9 Pyx.OSetPtr.empty))) = [7, 8, 9] := by decide
+example : (iIterRem iterShape discardProg (fun k => k == 9) 4 (iGuarded addProg 8 (iGuarded addProg 9 Pyx.OSetPtr.empty)) 1).1 = [9, 8] := by decide
+example : iToList reversedShape (iGuarded { discardProg with body := discardProg.body.take 2 } 8
+      (iGuarded addProg 7 (iGuarded addProg 8 (iGuarded addProg 9 Pyx.OSetPtr.empty)))) = [7, 8, 9] ∧
+    iToList reversedShape (iGuarded discardProg 8
+      (iGuarded addProg 7 (iGuarded addProg 8 (iGuarded addProg 9 Pyx.OSetPtr.empty)))) = [7, 9] := by decide
 
 end PyxProps.C17
